@@ -40,7 +40,7 @@ def case_st(draw, shapes):
     sc = draw(scen.scenario_st(shapes, measure="none", numeric=numeric, max_valid=5,
                                weight_kinds=("none", "none", "int", "int", "dyadic"),
                                skew=draw(st.booleans())))
-    tx, inforce = draw(xforms.slice_insertions_st(sc, where="either", max_ins=2,
+    tx, inforce = draw(xforms.slice_insertions_st(sc, where="either", max_ins=3,
                                                   allow_malformed=False, allow_diff=True))
     sc["transforms"] = tx
     sc["insertions"] = inforce
